@@ -135,7 +135,8 @@ def run(module, cfg=None, *, simulate=None, depth=None, seed=None, workers=1, ti
                 f.write(cfg_text)
         elif cfg is not None:
             cfg_path = cfg if os.path.isabs(cfg) else os.path.join(spec_dir, cfg)
-        cmd = ["java", "-XX:+UseParallelGC", "-Xss" + xss]
+        # (TLC's modules leave tlc-<n> directories in java.io.tmpdir: keep them inside the metadir, which is removed)
+        cmd = ["java", "-XX:+UseParallelGC", "-Xss" + xss, "-Djava.io.tmpdir=" + meta]
         if heap:
             cmd.append("-Xmx" + heap)
         cmd += ["-cp", JAR + ":" + DEPS, "tlc2.TLC"]
